@@ -600,6 +600,18 @@ pub fn family(name: &str, param: usize, ws: &Ws) -> Doc {
         // several big sibling containers: a node's parent then opens thousands of BP positions (several rank /
         // excess directory blocks) below it while a big earlier sibling lies in between -- what upward navigation
         // (parent / enclose, and the path builders on top of it) has to get across
+        // a string whose escape sequence straddles every chunk boundary as `param` slides: `pad` plain bytes, then
+        // `\"` (so the backslash / the escaped quote land on byte 15/16, 31/32, 63/64 ... of the text in turn), and a
+        // second string ending in an escaped backslash right before its closing quote; structure follows so that a
+        // mis-tracked string state shows up as wrong structural positions
+        "escape-align" => {
+            let pad = "x".repeat(param);
+            a.leaves.push(st(&format!("\"{pad}\\\"y\""), &format!("{pad}\"y")));
+            let l1 = a.leaves.len() - 1;
+            a.leaves.push(st(&format!("\"{pad}\\\\\""), &format!("{pad}\\")));
+            let l2 = a.leaves.len() - 1;
+            Tree::Obj(vec![(0, Tree::Leaf(l1)), (1, Tree::Arr(vec![Tree::Leaf(one), Tree::Obj(vec![(0, Tree::Leaf(l2))]), Tree::Leaf(l1)])), (2, Tree::Leaf(null))])
+        }
         "siblings" => Tree::Obj((0..3).map(|k| (k, Tree::Arr((0..param).map(|i| Tree::Leaf((i + k) % nleaves)).collect()))).collect()),
         "siblings-arr" => Tree::Arr((0..3).map(|k| if k == 1 { Tree::Obj(vec![(0, Tree::Arr((0..param).map(|i| Tree::Leaf(i % nleaves)).collect()))]) } else { Tree::Arr((0..param).map(|i| Tree::Leaf((i + k) % nleaves)).collect()) }).collect()),
         o => panic!("unknown family {o}"),
@@ -751,6 +763,9 @@ pub fn family_list(quick: bool) -> Vec<(&'static str, usize)> {
     for &n in (if quick { &[700usize, 1200][..] } else { &[700usize, 1200, 2100, 5000][..] }) {
         v.push(("siblings", n));
         v.push(("siblings-arr", n));
+    }
+    for pad in 0..=(if quick { 70 } else { 200 }) {
+        v.push(("escape-align", pad));
     }
     for z in 1..=(if quick { 8 } else { 20 }) {
         v.push(("sparse", z));
